@@ -17,9 +17,9 @@ RULE = ("generated trees (nesting 0..6, hidden files/dirs, .gitignore/.fdignore 
         "that a plain scan would list; distinct = (tree shape, option set)")
 
 DIR_NAMES = ["a", "b", "sub", "x-1", "d.ir", "p+q", "(par)", "[br]", "{cu}", "c^r", "do$l", "pi|pe", "sp ace", "żółw", "日本", "UP", "Mixed"]
-FILE_NAMES = ["f.txt", "g.txt", "h.bin", "i.jpg", "data", "note.TXT", "a b.txt", "ż.txt", "x-1.log", "k(1).txt", "UPPER.JPG", "m+n.bin"]
-GLOB_NAME = ["*.txt", "*.jpg", "?.txt", "*", "{f,g}.*", "[a-h]*", "*.{txt,bin}", "*a*", "@(f|g).txt", "+([a-z]).txt", "note*", "k\\(1\\).txt"]
-REGEX_NAME = [".*\\.txt", "[fg]\\..*", ".*a.*", "[a-z]+\\.[a-z]+"]
+FILE_NAMES = ["f.txt", "g.txt", "h.bin", "i.jpg", "data", "note.TXT", "a b.txt", "ż.txt", "x-1.log", "k(1).txt", "UPPER.JPG", "m+n.bin", "pay$", "two\nlines.txt"]
+GLOB_NAME = ["*.txt", "*.jpg", "?.txt", "*", "{f,g}.*", "[a-h]*", "*.{txt,bin}", "*a*", "@(f|g).txt", "+([a-z]).txt", "note*", "k\\(1\\).txt", "*y$", "pa?$", "pay$"]
+REGEX_NAME = [".*\\.txt", "[fg]\\..*", ".*a.*", "[a-z]+\\.[a-z]+", ".*y\\$", "pay\\$$"]
 
 
 def gen_tree(r, troot, tmpfs_dir):
